@@ -108,6 +108,12 @@ def roundInt (h : Char) (t : List Char) (pend : Bool) (e : Int) : Mant :=
     else { ip := [incChar h], fp := [], e := e }
   else { ip := h :: t, fp := [], e := e }
 
+/-- precision branch when only `p` of the integer digits `h :: tl` are kept (`p ≤ |h :: tl|`);
+    `inc` says whether the first dropped digit is at least `5` -/
+def roundIp (h : Char) (tl : List Char) (p : Nat) (inc : Bool) (e : Int) : Mant :=
+  let st := incStrip (((h :: tl).take p).drop 1) inc
+  roundInt h st.1 st.2 (wrap64 (e + (((tl.length + 1 : Nat) : Int) - ((1 + st.1.length : Nat) : Int))))
+
 /-- precision branch of `Number` on the trimmed mantissa, `0 < p` -/
 def roundP (m : Mant) (p : Nat) : Mant :=
   match m.ip with
@@ -116,31 +122,26 @@ def roundP (m : Mant) (p : Nat) : Mant :=
     let ds := dropZeros m.fp
     let lz := m.fp.length - ds.length
     if p < ds.length then
-      let (t, pend) := incStrip (m.fp.take (lz + p)) (ge5At ds p)
-      if pend then { ip := ['1'], fp := [], e := m.e } else { m with fp := t }
+      let st := incStrip (m.fp.take (lz + p)) (ge5At ds p)
+      if st.2 then { ip := ['1'], fp := [], e := m.e } else { ip := [], fp := st.1, e := m.e }
     else m
   | h :: tl =>
-    let ip := h :: tl
-    let ni := ip.length
+    let ni := tl.length + 1
     if m.fp.isEmpty then
       -- integer: do not turn 9 into 10, 99 into 100, 9e1 into 1e2
       if p < ni && decide (1 < wrap64 (((ni : Int) - (p : Int)) + m.e)) then
-        let (t, pend) := incStrip ((ip.take p).drop 1) (ge5At ip p)
-        roundInt h t pend (wrap64 (m.e + ((ni : Int) - (1 + t.length : Nat))))
+        roundIp h tl p (ge5At (h :: tl) p) m.e
       else m
-    else
-      if p < ni + m.fp.length then
-        if p ≤ ni then
-          let inc := if p < ni then ge5At ip p else ge5At m.fp 0
-          let (t, pend) := incStrip ((ip.take p).drop 1) inc
-          roundInt h t pend (wrap64 (m.e + ((ni : Int) - (1 + t.length : Nat))))
+    else if p < ni + m.fp.length then
+      if p ≤ ni then
+        roundIp h tl p (if p < ni then ge5At (h :: tl) p else ge5At m.fp 0) m.e
+      else
+        let st := incStrip (tl ++ m.fp.take (p - ni)) (ge5At m.fp (p - ni))
+        if !st.2 && ni - 1 ≤ st.1.length then
+          { ip := h :: st.1.take (ni - 1), fp := st.1.drop (ni - 1), e := m.e }
         else
-          let (t, pend) := incStrip (tl ++ m.fp.take (p - ni)) (ge5At m.fp (p - ni))
-          if !pend && ni - 1 ≤ t.length then
-            { ip := h :: t.take (ni - 1), fp := t.drop (ni - 1), e := m.e }
-          else
-            roundInt h t pend (wrap64 (m.e + ((ni : Int) - (1 + t.length : Nat))))
-      else m
+          roundInt h st.1 st.2 (wrap64 (m.e + ((ni : Int) - ((1 + st.1.length : Nat) : Int))))
+    else m
 
 /-- the significant digits `ds` and `normExp` (before adding the exponent) of a trimmed mantissa:
     the value of the mantissa is `0.ds · 10^normExp` -/
